@@ -21,8 +21,10 @@ Definition uses_batch (cs : list ctr) : bool := existsb declares_any cs.
 
 Definition unlimited : Z := -1.
 
-(* the CFS quota divided by the normalization ratio (hundredths) when one above 1 is configured *)
-Definition normalized (r q : Z) : Z := if 100 <? r then cdiv (q * 100) r else q.
+(* the CFS quota divided by the normalization ratio (hundredths) when one above 1 is configured:
+   the double-precision quotient rounded up, as the Go expression computes it; Properties.v
+   relates it to the exact rational quotient (c14_ratio_above_one) *)
+Definition normalized (r q : Z) : Z := if 100 <? r then ratio_div_ceil r q else q.
 
 (* ---------- expected values: container ---------- *)
 
@@ -104,14 +106,14 @@ Definition near_sum (g : cfg) (cs : list ctr) (o : obs) : Prop :=
   (eff_shares (shares p) < CPUSharesMaxValue ->
      eff_shares (shares p) <= sum_shares rs + n /\ sum_shares rs <= eff_shares (shares p) + n * CPUSharesMinValue)
   /\ (cfsOn g = true -> all_cpu_limited cs = true ->
-     eff_unl (quota p) <= sum_quota rs <= eff_unl (quota p) + n * CFSQuotaMinValue)
+     eff_unl (quota p) <= sum_quota rs + (if 100 <? ratio g then n else 0) /\ sum_quota rs <= eff_unl (quota p) + n * CFSQuotaMinValue)
   /\ (all_mem_limited cs = true -> eff_unl (mem p) = sum_mem rs).
 Definition near_sumb (g : cfg) (cs : list ctr) (o : obs) : bool :=
   let p := fst o in let rs := snd o in let n := Z.of_nat (length cs) in
   (negb (eff_shares (shares p) <? CPUSharesMaxValue)
    || ((eff_shares (shares p) <=? sum_shares rs + n) && (sum_shares rs <=? eff_shares (shares p) + n * CPUSharesMinValue)))
   && (negb (cfsOn g) || negb (all_cpu_limited cs)
-      || ((eff_unl (quota p) <=? sum_quota rs) && (sum_quota rs <=? eff_unl (quota p) + n * CFSQuotaMinValue)))
+      || ((eff_unl (quota p) <=? sum_quota rs + (if 100 <? ratio g then n else 0)) && (sum_quota rs <=? eff_unl (quota p) + n * CFSQuotaMinValue)))
   && (negb (all_mem_limited cs) || (eff_unl (mem p) =? sum_mem rs)).
 
 (* ---------- the property ---------- *)
